@@ -327,16 +327,9 @@ func (c *Ctx) bodyElements(ia *interpAnchors) {
 		}
 	}
 	c.check(n >= 2, "CTL-BODYELEM", fname, "body element dispatch sites", fn.Pos(), fmt.Sprint(n), "expected the body loop and the tail jump")
-	// deferred construction: while procStart is non-empty the object is pushed, not dispatched (brace marker branch dominates header)
-	found := false
-	for _, cd := range entryConds(hdr) {
-		if m, ok := asCmp(cd); ok && lenOfField(m.x, ia.T, c.fld("intp.procStart")) {
-			if k, isC := constInt(m.y); isC && ((m.op == token.LEQ && k == 0) || (m.op == token.EQL && k == 0) || (m.op == token.LSS && k == 1)) {
-				found = true
-			}
-		}
-	}
-	c.check(found, "CTL-DEFERRED", fname, "dispatch only outside an open procedure body", hdr.Instrs[0].Pos(), "len(procStart) == 0 dominates the dispatch", "objects can be dispatched while a procedure body is being collected: procedure bodies are not deferred")
+	// deferred construction: while a procedure body is open an object is appended to it, not
+	// dispatched — decided on the evaluator, so that it does not matter where the test lives
+	c.deferredRule(ia)
 }
 
 func typeIsNamed(t types.Type, tn *types.TypeName) bool {
@@ -456,7 +449,7 @@ func (c *Ctx) lookupOrder(ia *interpAnchors, f *ssa.Function) {
 
 // bindLookup: bind resolves names through load (the dictionary stack).
 func (c *Ctx) bindLookup(ia *interpAnchors) {
-	f := c.methodOpt("postscript", "Interpreter", "bindProc")
+	f := c.bindWorker(ia)
 	if f == nil {
 		c.fail("CTL-BIND", "bindProc", "anchor", token.NoPos, "bindProc not found")
 		return
